@@ -182,6 +182,11 @@ func GenConfig(t *rapid.T, lss []map[string]string, p GenParams) (Config, int, i
 	if rapid.Bool().Draw(t, "r1two") {
 		c.Receivers[1].Integrations = append(c.Receivers[1].Integrations, Integration{SendResolved: rapid.Bool().Draw(t, "sr11")})
 	}
+	// an integration of a second type: its identity (discord[0]) is not its position in the receiver
+	if rapid.IntRange(0, 2).Draw(t, "discord") == 0 {
+		ri := rapid.IntRange(0, 1).Draw(t, "discordRecv")
+		c.Receivers[ri].Integrations = append(c.Receivers[ri].Integrations, Integration{Kind: "discord", SendResolved: rapid.Bool().Draw(t, "srd")})
+	}
 	if p.Intervals {
 		n := rapid.IntRange(0, 2).Draw(t, "nti")
 		for i := 0; i < n; i++ {
@@ -258,7 +263,7 @@ func GenScenario(t *rapid.T, p GenParams) Scenario {
 		r := sampled(t, "brcv", "r0", "r1")
 		idx := 0
 		if rc := cfg.ReceiverByName(r); rc != nil && len(rc.Integrations) > 1 {
-			idx = rapid.IntRange(0, len(rc.Integrations)-1).Draw(t, "bidx")
+			idx = rc.IDs()[rapid.IntRange(0, len(rc.Integrations)-1).Draw(t, "bidx")]
 		}
 		return r, idx
 	}
@@ -272,7 +277,7 @@ func GenScenario(t *rapid.T, p GenParams) Scenario {
 		t0 := sc.Opts.StartDelay + sampled(t, "flapt0", 1, 5, 30)
 		idx := 0
 		if rc := cfg.ReceiverByName(rt.Receiver); rc != nil && len(rc.Integrations) > 1 {
-			idx = rapid.IntRange(0, len(rc.Integrations)-1).Draw(t, "flapidx")
+			idx = rc.IDs()[rapid.IntRange(0, len(rc.Integrations)-1).Draw(t, "flapidx")]
 		}
 		slow := sampled(t, "flapslow", 5, 20)
 		sc.Steps = append(sc.Steps,
@@ -392,6 +397,29 @@ func GenScenario(t *rapid.T, p GenParams) Scenario {
 				// a changed configuration: same routing structure (so groups and their keys persist), other timers
 				c := cloneConfig(&cfg)
 				changeTimers(t, c.Route, timers{gw: 30, gi: 300, ri: 14400}, maxRI)
+				// ... and sometimes another make-up of a receiver: a webhook is appended or the last one removed, which
+				// moves the integrations of the other type to another position but leaves their identity alone
+				if rapid.IntRange(0, 2).Draw(t, "reloadIntegrations") == 0 {
+					rc := &c.Receivers[rapid.IntRange(0, len(c.Receivers)-1).Draw(t, "riRecv")]
+					last := -1
+					for i, in := range rc.Integrations {
+						if in.Kind == "" {
+							last = i
+						}
+					}
+					nweb := 0
+					for _, in := range rc.Integrations {
+						if in.Kind == "" {
+							nweb++
+						}
+					}
+					if nweb >= 2 && rapid.Bool().Draw(t, "riRemove") {
+						rc.Integrations = append(rc.Integrations[:last:last], rc.Integrations[last+1:]...)
+					} else if nweb < 3 {
+						ins := Integration{SendResolved: rapid.Bool().Draw(t, "riSR")}
+						rc.Integrations = append(rc.Integrations[:last+1:last+1], append([]Integration{ins}, rc.Integrations[last+1:]...)...)
+					}
+				}
 				st.Config = c
 			}
 		case k < 19 && p.Restart:
